@@ -35,6 +35,28 @@ CHECKS = {
         "note": NOTE,
         "technique": "static analysis: path-condition tables over MIR (edge dominance), sibling comparison, who-may-call, value-flow",
     },
+    "C05": {
+        "text": "Decides four necessary conditions of crash recovery for all paths: the recovery scan in seglog Writer::open advances the write offset on its "
+                "success edge only and returns Err only for real I/O errors (a torn last record ends the scan); the truncation marker is written after the last "
+                "flush and synced; every live index published by Worker::new was hydrated; and hydration must be commit-aware (this last rule reports the three "
+                "hydrate functions as KNOWN-FINDING D5). Does not enumerate crash points.",
+        "note": NOTE,
+        "technique": "static analysis: error-flow discipline, dominance on the scan's success edge, ordering (no flush after marker), value-flow of hydrate sources",
+    },
+    "C06": {
+        "text": "Decides that the loader of sealed segments has (or lacks) a path that can rebuild an index from the segment file for each of the three index kinds "
+                "(today it lacks it: KNOWN-FINDING D6 x3), and that Open*Index::close only replaces the in-memory map with the result of a successful flush_inner "
+                "and writes the file through flush_inner only. Does not decide which file prefixes are detected as incomplete.",
+        "note": NOTE,
+        "technique": "static analysis: call-graph reachability (may-call) from the loader, dominance / value-flow in the background flush closure",
+    },
+    "C12": {
+        "text": "Decides for all paths: OrderedQueue::insert never mutates the map on a path that returns Err, rejects keys below next, pop removes exactly map[next]; "
+                "a function moving `next` purges smaller keys (KNOWN-FINDING D11: progress_to does not); buffer_write keys by the assigned sequence and hands back "
+                "the rejected write's own sender; every popped write flows into write_buffered, which answers all senders; the queue advances to last+1 on Ok only.",
+        "note": NOTE,
+        "technique": "static analysis: no-mutation-before-Err path rule, who-writes-field pairing, value-flow of popped writes and reply senders on MIR",
+    },
     "C08": {
         "text": "Decides: the watermark is only written by a guarded compare_exchange in advance (monotone); advance is only called by update_confirmation "
                 "(and caller-less admin overrides); stored confirmation counts only grow (max); the candidate watermark only advances under "
